@@ -315,9 +315,7 @@ def norm_num(x):
     if isinstance(x, Decimal):
         return f"D{x.normalize()}"
     if isinstance(x, float):
-        if x == int(x) and abs(x) < 2**53:
-            return int(x)
-        return float(x)
+        return float(x)  # stays a float: compared with tolerance, never exactly
     try:
         import numpy as np
 
